@@ -192,7 +192,7 @@ func modelPath() string {
 	if p := os.Getenv("VERIF_DCMODEL"); p != "" {
 		return p
 	}
-	return "/verif/lean/.lake/build/bin/dcmodel"
+	return verifHome() + "/lean/.lake/build/bin/dcmodel"
 }
 
 func startModel() *Model {
@@ -293,7 +293,7 @@ type knownFile struct {
 
 func loadKnown() map[string]KnownFinding {
 	out := map[string]KnownFinding{}
-	b, err := os.ReadFile("/verif/known_findings.json")
+	b, err := os.ReadFile(verifHome() + "/known_findings.json")
 	if err != nil {
 		return out
 	}
@@ -484,7 +484,7 @@ func superviseMain(args map[string]string) {
 	seenKnown := map[string]bool{}
 	seenViol := map[string]bool{}
 	sort.SliceStable(res.Findings, func(i, j int) bool { return res.Findings[i].Key < res.Findings[j].Key })
-	_ = os.MkdirAll("/verif/replays", 0o755)
+	_ = os.MkdirAll(verifHome()+"/replays", 0o755)
 	for _, f := range res.Findings {
 		id := f.Prop + "|" + f.Key
 		if k, ok := known[id]; ok {
@@ -502,8 +502,8 @@ func superviseMain(args map[string]string) {
 		}
 		seenViol[id] = true
 		sum := sha256.Sum256([]byte(f.Key + f.InputHex + f.Input))
-		path := fmt.Sprintf("/verif/replays/%s-%s.json", f.Prop, hex.EncodeToString(sum[:6]))
-		rep := map[string]any{"finding": f, "replay_cmd": fmt.Sprintf("cd /verif && ./check %s --replay %s", f.Prop, path)}
+		path := fmt.Sprintf("%s/replays/%s-%s.json", verifHome(), f.Prop, hex.EncodeToString(sum[:6]))
+		rep := map[string]any{"finding": f, "replay_cmd": fmt.Sprintf("cd %s && ./check %s --replay %s", verifHome(), f.Prop, path)}
 		b, _ := json.MarshalIndent(rep, "", " ")
 		_ = os.WriteFile(path, b, 0o644)
 		res.Replays = append(res.Replays, path)
@@ -586,4 +586,12 @@ func raceSite(report string) string {
 		return fr[0]
 	}
 	return "unknown"
+}
+
+// verifHome is the root of the verification framework (VERIF_HOME overrides it for isolated trial copies).
+func verifHome() string {
+	if h := os.Getenv("VERIF_HOME"); h != "" {
+		return h
+	}
+	return "/verif"
 }
